@@ -66,6 +66,8 @@ def hostile(shard, rnd):
     for depth in shard.get('deep_fault', ()):
         for x in faults.deep_length_skew_frames(rnd, depth):
             yield x
+        for x in faults.deep_underdeclared_frames(rnd, depth):
+            yield x
     for size in shard['big']:
         for x in faults.big_worst_cases(rnd, size):
             yield x
